@@ -140,7 +140,7 @@ theorem C05_section_item (orc : Oracle) (m : PM) (f : Frame) (rest : List Frame)
         { m with frames := f' :: rest, maxDepth := max m.maxDepth (rest.length + 2) } ∧
       AtItem f' ∧ f'.opttitle = none ∧ f'.level = f.level ∧ f'.back = f.back ∧
       f'.cfg.opts = pre ++ res :: post ∧ f'.cfg.flags = f.cfg.flags ∧
-      res.vals = o0.vals ++ [.sec s'] ∧ res.info = o0.info ∧ res.flags.deprecated = false ∧
+      res = Opt.mk o0.info { o0.flags with modified := true } o0.subs (o0.vals ++ [.sec s']) o0.comment ∧
       All2 (fun r o => r.vals = o.vals) s'.opts c.opts := by
   let r : OptRef := ⟨[], pre.length⟩
   have hlook := getoptPath_top f.cfg o0.name pre o0 post hd.name hopts hpre (titleEq_refl _ _)
@@ -176,7 +176,7 @@ theorem C05_section_item (orc : Oracle) (m : PM) (f : Frame) (rest : List Frame)
     hrun rfl hat3.st (by rw [hlev3]; exact Nat.succ_ne_zero _) hat3.nd (by rw [hbk3]) rfl gP (by cases o0; exact hd.noValid)
   let chL := ch'.cfg.setLine (ch'.cfg.line + n3)
   let res : Opt := (o0.withInstance S).setVals (listSet (o0.withInstance S).vals o0.vals.length (.sec chL))
-  refine ⟨{ F2 with cfg := (F2.cfg.setOpt r res).afterSection chL, state := .s0 }, res, chL, ?_, ⟨rfl, hat.cm, ?_⟩, rfl, rfl, rfl, ?_, ?_, ?_, ?_, ?_, ?_⟩
+  refine ⟨{ F2 with cfg := (F2.cfg.setOpt r res).afterSection chL, state := .s0 }, res, chL, ?_, ⟨rfl, hat.cm, ?_⟩, rfl, rfl, rfl, ?_, ?_, ?_, ?_⟩
   · simp only [parseToks, List.foldl_append, List.foldl]
     rw [e1, e2]
     have e3' : List.foldl (fun m (t : Tok × Nat) => pstep orc m t.1 t.2) m2 body = { m2 with frames := ch' :: F2 :: rest } := e3
@@ -192,14 +192,216 @@ theorem C05_section_item (orc : Oracle) (m : PM) (f : Frame) (rest : List Frame)
       show ((F1.cfg.setLine _).setOpt r (o0.withInstance S)).opts = _
       exact setOpt_top _ pre o0 _ post (by simp only [opts_setLine]; exact hopts))
   · simp only [Cfg.afterSection_flags, setOpt_flags]; exact hPflags
-  · show (listSet ((o0.withInstance S).vals) o0.vals.length (.sec chL)) = _
-    show listSet (o0.vals ++ [.sec S]) o0.vals.length (.sec chL) = _
-    exact listSet_append_length _ _ _
-  · cases o0; rfl
-  · cases o0; exact hd.notDep
+  · show (o0.withInstance S).setVals (listSet (o0.vals ++ [.sec S]) o0.vals.length (.sec chL)) = _
+    rw [listSet_append_length]
+    cases o0; rfl
   · show All2 _ (ch'.cfg.setLine _).opts c.opts
     simp only [opts_setLine, hopts3, List.nil_append]
     exact hv3
+
+/-- the section option after more instances were appended -/
+def Opt.withInstances (o : Opt) (ss : List Cfg) : Opt :=
+  Opt.mk o.info { o.flags with modified := true } o.subs (o.vals ++ ss.map Val.sec) o.comment
+
+theorem mkSection_congr (ci : CfgInfo) (o o' : Opt) (hn : o'.name = o.name) (hk : o'.flags.keystrval = o.flags.keystrval) (hs : o'.subs = o.subs) :
+    mkSection ci o' none = mkSection ci o none := by
+  unfold mkSection sectionInfo
+  rw [hn, hk, hs]
+
+theorem secDecl_withInstances (o : Opt) (ss : List Cfg) (hd : SecDecl o) : SecDecl (o.withInstances ss) := by
+  obtain ⟨⟨h1, h2⟩, h3, h4, h5, h6, h7⟩ := hd
+  cases o
+  exact ⟨⟨h1, h2⟩, h3, h4, h5, h6, h7⟩
+
+/-- the tokens of the printed instances of ONE untitled multi section option, in order -/
+inductive InstToks (name : Bytes) : List Cfg → List (Tok × Nat) → Prop
+  | nil : InstToks name [] []
+  | cons (c : Cfg) (cs : List Cfg) (body ts : List (Tok × Nat)) (n1 n2 n3 : Nat) :
+      FlatToks c.opts body → InstToks name cs ts →
+      InstToks name (c :: cs) ([(.str name, n1), (.lbrace, n2)] ++ body ++ [(.rbrace, n3)] ++ ts)
+
+theorem withInstances_withInstances (o : Opt) (s : Cfg) (ss : List Cfg) :
+    (Opt.mk o.info { o.flags with modified := true } o.subs (o.vals ++ [.sec s]) o.comment).withInstances ss = o.withInstances (s :: ss) := by
+  cases o
+  simp [Opt.withInstances, Opt.info, Opt.flags, Opt.subs, Opt.vals, Opt.comment, List.append_assoc]
+
+/-- **all printed instances of one section option.** `name { … } name { … } …` (at least one) appends, in order, one
+instance per printed instance, each holding exactly the printed values. -/
+theorem inst_steps (orc : Oracle) : ∀ (cs : List Cfg) (c : Cfg) (ts : List (Tok × Nat)) (m : PM) (f : Frame) (rest : List Frame) (o0 : Opt) (pre post : List Opt),
+    InstToks o0.name (c :: cs) ts →
+    m.status = .running → m.frames = f :: rest → AtItem f → f.opttitle = none →
+    f.cfg.opts = pre ++ o0 :: post →
+    (∀ p ∈ pre, titleEq f.cfg.flags.nocase p.name o0.name = false) →
+    SecDecl o0 →
+    (∀ x ∈ c :: cs, (∀ ci, All2 Aligned x.opts (mkSection ci o0 none).opts) ∧
+               List.Pairwise (fun a b => titleEq f.cfg.flags.nocase a.name b.name = false) x.opts) →
+    ∃ f' ss md, parseToks orc m ts = { m with frames := f' :: rest, maxDepth := md } ∧
+      AtItem f' ∧ f'.opttitle = none ∧ f'.level = f.level ∧ f'.back = f.back ∧
+      f'.cfg.opts = pre ++ (o0.withInstances ss) :: post ∧ f'.cfg.flags = f.cfg.flags ∧
+      All2 (fun s' x => All2 (fun r o => r.vals = o.vals) s'.opts x.opts) ss (c :: cs) := by
+  intro cs
+  induction cs with
+  | nil =>
+    intro c ts m f rest o0 pre post hts hrun hfr hat hot hopts hpre hd hall
+    cases hts with
+    | cons _ _ body ts' n1 n2 n3 hb hrest =>
+      cases hrest
+      obtain ⟨hal, hpw⟩ := hall c (by simp)
+      obtain ⟨f', res, s', e, hat', hot', hlev', hbk', hopts', hfl', hres, hv⟩ :=
+        C05_section_item orc m f rest o0 pre post c body n1 n2 n3 hrun hfr hat hot hopts hpre hd hb hal hpw
+      refine ⟨f', [s'], max m.maxDepth (rest.length + 2), ?_, hat', hot', hlev', hbk', ?_, hfl', All2.cons hv All2.nil⟩
+      · simpa using e
+      · rw [hopts', hres]; rfl
+  | cons c2 cs ih =>
+    intro c ts m f rest o0 pre post hts hrun hfr hat hot hopts hpre hd hall
+    cases hts with
+    | cons _ _ body ts' n1 n2 n3 hb hrest =>
+      obtain ⟨hal, hpw⟩ := hall c (by simp)
+      obtain ⟨f1, res, s', e1, hat1, hot1, hlev1, hbk1, hopts1, hfl1, hres, hv⟩ :=
+        C05_section_item orc m f rest o0 pre post c body n1 n2 n3 hrun hfr hat hot hopts hpre hd hb hal hpw
+      have hname : res.name = o0.name := by rw [hres]; rfl
+      have hd1 : SecDecl res := by
+        rw [hres]
+        obtain ⟨⟨h1, h2⟩, h3, h4, h5, h6, h7⟩ := hd
+        cases o0
+        exact ⟨⟨h1, h2⟩, h3, h4, h5, h6, h7⟩
+      have hmk : ∀ ci, mkSection ci res none = mkSection ci o0 none := by
+        intro ci
+        apply mkSection_congr
+        · exact hname
+        · rw [hres]; cases o0; rfl
+        · rw [hres]; cases o0; rfl
+      obtain ⟨f2, ss, md, e2, hat2, hot2, hlev2, hbk2, hopts2, hfl2, hv2⟩ :=
+        ih c2 ts' { m with frames := f1 :: rest, maxDepth := max m.maxDepth (rest.length + 2) } f1 rest res pre post
+          (by rw [hname]; exact hrest) hrun rfl hat1 hot1 hopts1
+          (by rw [hfl1, hname]; exact hpre) hd1
+          (by
+            intro x hx
+            obtain ⟨h1, h2⟩ := hall x (by simp [List.mem_cons] at hx ⊢; rcases hx with h | h <;> simp [h])
+            exact ⟨fun ci => by rw [hmk]; exact h1 ci, by rw [hfl1]; exact h2⟩)
+      refine ⟨f2, s' :: ss, md, ?_, hat2, hot2, by rw [hlev2, hlev1], by rw [hbk2, hbk1], ?_, by rw [hfl2, hfl1], All2.cons hv hv2⟩
+      · have : ([(Tok.str o0.name, n1), (Tok.lbrace, n2)] ++ body ++ [(Tok.rbrace, n3)] ++ ts') =
+            ([(Tok.str o0.name, n1), (Tok.lbrace, n2)] ++ body ++ [(Tok.rbrace, n3)]) ++ ts' := by simp
+        rw [this, parseToks_append, e1, e2]
+      · rw [hopts2, hres, withInstances_withInstances]
+
+/-! ## a configuration one level deep: plain options and untitled multi sections with flat bodies -/
+
+/-- the tokens a printed configuration of depth one scans to: option after option; a section option contributes the
+tokens of its instances, none if it has none -/
+inductive Tree1Toks : List Opt → List (Tok × Nat) → Prop
+  | nil : Tree1Toks [] []
+  | plain (o : Opt) (os : List Opt) (ts tss : List (Tok × Nat)) :
+      o.ty ≠ .sec → OptToks o ts → Tree1Toks os tss → Tree1Toks (o :: os) (ts ++ tss)
+  | secNone (o : Opt) (os : List Opt) (tss : List (Tok × Nat)) :
+      o.ty = .sec → o.vals = [] → Tree1Toks os tss → Tree1Toks (o :: os) tss
+  | sec (o : Opt) (os : List Opt) (c : Cfg) (cs : List Cfg) (ts tss : List (Tok × Nat)) :
+      o.ty = .sec → o.vals = (c :: cs).map Val.sec → InstToks o.name (c :: cs) ts → Tree1Toks os tss →
+      Tree1Toks (o :: os) (ts ++ tss)
+
+/-- declared counterpart at depth one: a plain option as in the flat case; a section option is an untitled multi section
+without instances whose sub-options are the declared counterparts of every printed instance's options -/
+def Aligned1 (nc : Bool) (o o0 : Opt) : Prop :=
+  (o.ty ≠ .sec ∧ Aligned o o0) ∨
+  (o.ty = .sec ∧ o0.name = o.name ∧ SecDecl o0 ∧ o0.vals = [] ∧
+     ∀ c, Val.sec c ∈ o.vals → (∀ ci, All2 Aligned c.opts (mkSection ci o0 none).opts) ∧
+                               List.Pairwise (fun a b => titleEq nc a.name b.name = false) c.opts)
+
+/-- the same values, one level deep: a plain option holds the printed value sequence; a section option has one instance
+per printed instance, in order, each holding option by option the printed values -/
+def SameVals1 (r o : Opt) : Prop :=
+  (o.ty ≠ .sec ∧ r.vals = o.vals) ∨
+  (o.ty = .sec ∧ ∃ ss cs, o.vals = cs.map Val.sec ∧ r.vals = ss.map Val.sec ∧
+     All2 (fun s' c => All2 (fun a b => a.vals = b.vals) s'.opts c.opts) ss cs)
+
+/-- **a whole printed configuration of depth one, token level.** The tokens a printed configuration scans to - plain
+options and untitled multi sections with flat bodies, any number of instances each - fed to the machine at an item
+boundary of a context with the same declarations (section options still without instances, as `cfg_init` leaves them):
+the machine ends at an item boundary, every plain option holds exactly the printed values, and every section option
+has exactly the printed instances, in order, each holding exactly the printed values. -/
+theorem tree1_steps (orc : Oracle) (nc : Bool) : ∀ (os os0 : List Opt) (ts : List (Tok × Nat)) (m : PM) (f : Frame) (rest : List Frame) (pre : List Opt),
+    Tree1Toks os ts → All2 (Aligned1 nc) os os0 → f.cfg.flags.nocase = nc →
+    m.status = .running → m.frames = f :: rest → AtItem f → f.opttitle = none → f.cfg.opts = pre ++ os0 →
+    (∀ p ∈ pre, ∀ o ∈ os, titleEq nc p.name o.name = false) →
+    List.Pairwise (fun a b => titleEq nc a.name b.name = false) os →
+    ∃ f' done md, parseToks orc m ts = { m with frames := f' :: rest, maxDepth := md } ∧ AtItem f' ∧ f'.opttitle = none ∧
+      f'.level = f.level ∧ f'.back = f.back ∧ f'.cfg.opts = pre ++ done ∧ f'.cfg.flags = f.cfg.flags ∧
+      All2 SameVals1 done os := by
+  intro os
+  induction os with
+  | nil =>
+    intro os0 ts m f rest pre hts hal _ hrun hfr hat hot hopts _ _
+    cases hts
+    cases hal
+    refine ⟨f, [], m.maxDepth, ?_, hat, hot, rfl, rfl, by simpa using hopts, rfl, All2.nil⟩
+    obtain ⟨frames, srcs, status, diags, trace, pi, md⟩ := m
+    simp only at hfr; subst hfr
+    rfl
+  | cons o os ih =>
+    intro os0 ts m f rest pre hts hal hnc hrun hfr hat hot hopts hpre hpw
+    cases hal with
+    | cons hA hAs =>
+      rename_i o0 os0'
+      have hpre0 : ∀ p ∈ pre, titleEq f.cfg.flags.nocase p.name o.name = false := by
+        intro p hp; rw [hnc]; exact hpre p hp o (by simp)
+      -- what the induction hypothesis needs once the first option is done
+      have next : ∀ (m1 : PM) (f1 : Frame) (res : Opt) (tss : List (Tok × Nat)), Tree1Toks os tss →
+          m1.status = .running → m1.frames = f1 :: rest → AtItem f1 → f1.opttitle = none → f1.level = f.level → f1.back = f.back →
+          f1.cfg.opts = pre ++ res :: os0' → f1.cfg.flags = f.cfg.flags → res.name = o.name → SameVals1 res o →
+          ∃ f' done md, parseToks orc m1 tss = { m1 with frames := f' :: rest, maxDepth := md } ∧ AtItem f' ∧ f'.opttitle = none ∧
+            f'.level = f.level ∧ f'.back = f.back ∧ f'.cfg.opts = pre ++ done ∧ f'.cfg.flags = f.cfg.flags ∧
+            All2 SameVals1 done (o :: os) := by
+        intro m1 f1 res tss h2 hrun1 hfr1 hat1 hot1 hlev1 hbk1 hopts1 hfl1 hresname hsv
+        obtain ⟨f2, done, md, e2, hat2, hot2, hlev2, hbk2, hopts2, hfl2, hv2⟩ :=
+          ih os0' tss m1 f1 rest (pre ++ [res]) h2 hAs (by rw [hfl1]; exact hnc) hrun1 hfr1 hat1 hot1
+            (by rw [hopts1]; simp)
+            (by
+              intro p hp o' ho'
+              rcases List.mem_append.mp hp with hp | hp
+              · exact hpre p hp o' (by simp [ho'])
+              · simp only [List.mem_singleton] at hp
+                subst hp
+                rw [hresname]
+                exact (List.pairwise_cons.mp hpw).1 o' ho')
+            (List.pairwise_cons.mp hpw).2
+        exact ⟨f2, res :: done, md, e2, hat2, hot2, by rw [hlev2, hlev1], by rw [hbk2, hbk1], by rw [hopts2]; simp,
+          by rw [hfl2, hfl1], All2.cons hsv hv2⟩
+      cases hts with
+      | plain _ _ ts1 tss hty h1 h2 =>
+        rcases hA with ⟨_, hA⟩ | ⟨hsec, _⟩
+        · obtain ⟨hname, hty', hlist, hd⟩ := hA
+          obtain ⟨f1, res, e1, hat1, hlev1, hbk1, hot1, hopts1, hfl1, _, hv1, hi1, _, _, _⟩ :=
+            opt_step orc m f rest o o0 pre os0' ts1 hrun hfr hat hopts hpre0 hname hty' hlist hd h1
+          have hresname : res.name = o.name := by
+            have : res.name = o0.name := by simp [Opt.name, hi1]
+            rw [this, hname]
+          obtain ⟨f', done, md, e2, rest'⟩ :=
+            next { m with frames := f1 :: rest } f1 res tss h2 hrun rfl hat1 (by rw [hot1]; exact hot) hlev1 hbk1 hopts1 hfl1 hresname
+              (Or.inl ⟨hty, hv1⟩)
+          exact ⟨f', done, md, by rw [parseToks_append, e1, e2], rest'⟩
+        · exact absurd hsec hty
+      | secNone =>
+        rename_i hty hv h2
+        rcases hA with ⟨hns, _⟩ | ⟨_, hname, hd, hv0, _⟩
+        · exact absurd hty hns
+        · exact next m f o0 ts h2 hrun hfr hat hot rfl rfl hopts rfl hname
+            (Or.inr ⟨hty, [], [], by simpa using hv, by simpa using hv0, All2.nil⟩)
+      | sec _ _ c cs ts1 tss hty hv h1 h2 =>
+        rcases hA with ⟨hns, _⟩ | ⟨_, hname, hd, hv0, hinst⟩
+        · exact absurd hty hns
+        · obtain ⟨f1, ss, md1, e1, hat1, hot1, hlev1, hbk1, hopts1, hfl1, hvs⟩ :=
+            inst_steps orc cs c ts1 m f rest o0 pre os0' (by rw [hname]; exact h1) hrun hfr hat hot hopts
+              (by rw [hname]; exact hpre0) hd
+              (by
+                intro x hx
+                have hm : Val.sec x ∈ o.vals := by rw [hv]; exact List.mem_map.mpr ⟨x, hx, rfl⟩
+                obtain ⟨h1', h2'⟩ := hinst x hm
+                exact ⟨h1', by rw [hnc]; exact h2'⟩)
+          have hresname : (o0.withInstances ss).name = o.name := by rw [← hname]; rfl
+          obtain ⟨f', done, md, e2, rest'⟩ :=
+            next { m with frames := f1 :: rest, maxDepth := md1 } f1 (o0.withInstances ss) tss h2 hrun rfl hat1 hot1 hlev1 hbk1 hopts1 hfl1 hresname
+              (Or.inr ⟨hty, ss, c :: cs, hv, by show o0.vals ++ ss.map Val.sec = ss.map Val.sec; rw [hv0]; rfl, hvs⟩)
+          exact ⟨f', done, md, by rw [parseToks_append, e1, e2], rest'⟩
 
 /-- non-vacuity: the section `n { z = 5 }` of a schema `n` (multi) with one integer option `z` meets the premises -/
 example :
@@ -216,5 +418,17 @@ example :
   · have h := FlatToks.cons (Opt.mk { name := [122], ty := .int } {} [] [.int 5] none) [] _ []
       (OptToks.scalar _ (.int 5) (printInt 5) 0 0 0 rfl rfl rfl (by decide)) FlatToks.nil
     exact h
+
+/-- non-vacuity of the depth-one theorem's token relation: `n { z = 5 }` as the printed form of a section option holding
+one instance -/
+example :
+    let c : Cfg := Cfg.mk { name := [110] } [Opt.mk { name := [122], ty := .int } {} [] [.int 5] none]
+    let o : Opt := Opt.mk { name := [110], ty := .sec } { multi := true } [Decl.mk { name := [122], ty := .int } {} []] [.sec c] none
+    Tree1Toks [o] ([(.str [110], 0), (.lbrace, 0)] ++ [(.str [122], 0), (.eq, 0), (.str (printInt 5), 0)] ++ [(.rbrace, 1)] ++ [] ++ []) := by
+  intro c o
+  have hb : FlatToks c.opts [(.str [122], 0), (.eq, 0), (.str (printInt 5), 0)] :=
+    FlatToks.cons (Opt.mk { name := [122], ty := .int } {} [] [.int 5] none) [] _ []
+      (OptToks.scalar _ (.int 5) (printInt 5) 0 0 0 rfl rfl rfl (by decide)) FlatToks.nil
+  exact Tree1Toks.sec o [] c [] _ [] rfl rfl (InstToks.cons c [] _ [] 0 0 1 hb InstToks.nil) Tree1Toks.nil
 
 end Confuse
